@@ -55,6 +55,7 @@ PLANS = {
             job('retry', 'retry', 'C06', {'quick': 4, 'thorough': 5}, {'quick': 1, 'thorough': 1},
                 wit=['c06_retransmission', 'c06_budget_exhausted', 'c06_gap_checked', 'policy_alternatives', 'fault_fired']),
             job('retry-long', 'retry-long', 'C06', 1, 0, wit=['c06_budget_exhausted'], min_outcomes=1, shards=1),
+            job('retry-gai', 'retry-gai', 'C06', {'quick': 5, 'thorough': 6}, 0, wit=['c06_tc_upgrade_seen', 'c06_retransmission']),
         ],
     },
     'C07': {
@@ -132,7 +133,7 @@ PLANS = {
         'targets': T, 'deadline': {'quick': 300, 'thorough': 1800},
         'jobs': [
             {'name': 'stream', 'bin': 'exa', 'family': 'stream', 'shards': 16, 'args': {'quick': {}, 'thorough': {}}, 'resume': 'index',
-             'require_witnesses': {'*': ['plan_wouldblock', 'short_write', 'pending_write_cb', 'tc_retried_over_tcp', 'tc_on_last_attempt_retried', 'igntc_delivered', 'zero_length_datagram']}, 'min_outcomes': 2},
+             'require_witnesses': {'*': ['plan_wouldblock', 'short_write', 'pending_write_cb', 'tc_retried_over_tcp', 'tc_on_last_attempt_retried', 'tc_retried_over_tcp_in_dual_lookup', 'igntc_delivered', 'zero_length_datagram']}, 'min_outcomes': 2},
         ],
     },
 }
